@@ -230,17 +230,12 @@ func (w *World) fileAt(path string, i int) (bool, string) {
 	return ex, c
 }
 
-// pathsAt lists what ListKeyRings must return in world state i: existing ring paths and plain files.
-func (w *World) pathsAt(i int) []string {
-	var out []string
+// ringsAt lists the key rings that exist in world state i.
+func (w *World) ringsAt(i int) []string {
+	out := []string{}
 	for ring := range w.rings {
 		if w.ringAt(ring, i).Exists {
 			out = append(out, ring)
-		}
-	}
-	for f := range w.files {
-		if ex, _ := w.fileAt(f, i); ex {
-			out = append(out, f)
 		}
 	}
 	sort.Strings(out)
